@@ -438,6 +438,40 @@ class Driver:
         ev = self._emit_event({"a": "StopRestart", "armed_after_stop": armed_after}, raised, with_disk=True)
         return ev
 
+    def snapshot(self, scratch):
+        """C11: save the live state in both formats (scratch files), load each into a fresh gateway."""
+        import shutil
+        import tempfile
+        my = self.my
+        self.ops.append(["snapshot"])
+        d = tempfile.mkdtemp(prefix="snap", dir=scratch)
+        res = {}
+        raised = None
+        try:
+            for ext in ("json", "pickle"):
+                path = os.path.join(d, "state." + ext)
+                try:
+                    from mysensors.persistence import Persistence
+                    Persistence(self.gw.sensors, lambda f: f, persistence_file=path).save_sensors()
+                    g = my.BaseSyncGateway(RecTransport(), persistence=True, persistence_file=path,
+                                           protocol_version=self.version)
+                    g.start_persistence()
+                    keep, self.gw = self.gw, g
+                    try:
+                        res[ext] = {"tree": self._tree(), "trans": self._trans()}
+                    finally:
+                        self.gw = keep
+                    g.stop()
+                except Exception as exc:  # pylint: disable=broad-except
+                    raised = f"{ext}:{type(exc).__name__}"
+                    res[ext] = {"tree": [], "trans": []}
+        finally:
+            shutil.rmtree(d, ignore_errors=True)
+            FakeTimer.armed = [t for t in FakeTimer.armed if getattr(t.function, "__self__", None) is None] \
+                if False else FakeTimer.armed
+        ev = {"a": "Snapshot", "json": res["json"], "pickle": res["pickle"]}
+        return self._emit_event(ev, raised)
+
     def trace(self, meta=None):
         return {"cfg": {"ver": self.version, "flavour": self.flavour, "raising_cb": self.raising_cb,
                         "persist": bool(self.pfile), "mqtt": self.mqtt, **(meta or {})}, "ev": self.events, "ops": self.ops}
@@ -465,5 +499,10 @@ def replay_ops(cfg, ops, persistence_file=None):
             drv.tick()
         elif k == "stop_restart":
             drv.stop_restart()
+        elif k == "snapshot":
+            import tempfile
+            drv.snapshot(tempfile.gettempdir())
+        elif k == "set_child_raw":
+            pass
     drv.close()
     return drv.trace(cfg)
